@@ -69,6 +69,7 @@ class Report:
         self.known_hits: list[str] = []
         self.known = load_known(pid)
         self.internal: list[str] = []
+        self.dup: dict = {}
 
     # -- exploration results ------------------------------------------
     def add_exploration(self, name: str, st, bounds: dict, params_desc=None, min_outcomes: int = 0) -> None:
@@ -124,6 +125,9 @@ class Report:
                     self.known_hits.append(key)
                     print(f"KNOWN-FINDING: property={self.pid} {k.get('what', key)}")
                 return
+        if any(k == key for k, _ in self.violations):
+            self.dup[key] = self.dup.get(key, 0) + 1
+            return
         payload = dict(payload)
         payload.update({"property": self.pid, "key": key, "message": message})
         path = write_replay(self.pid, payload)
@@ -155,6 +159,8 @@ class Report:
         os.makedirs(EVID, exist_ok=True)
         with open(os.path.join(EVID, f"{self.pid}.json"), "w") as f:
             json.dump(ev, f, indent=1, default=repr)
+        for k, n in self.dup.items():
+            print(f"  (+{n} more violations with key {k})")
         if self.internal:
             for m in self.internal:
                 print("INTERNAL-ERROR:", m, file=sys.stderr)
